@@ -268,12 +268,31 @@ def assemble_impl_output(out_all, casefile):
     return res
 
 
+PEGCLASS = PEGVERIF[:-len('pegverif')] + 'pegclass'
+_pegclass_state = {}
+
+
 def run_model(casefile, timeout=1200):
     p = subprocess.run([PEGVERIF, 'run', casefile], stdout=subprocess.PIPE, stderr=subprocess.PIPE, text=True,
                        timeout=timeout)
     if p.returncode != 0:
         raise RuntimeError('model driver failed: ' + p.stderr[-2000:])
-    return parse_out(p.stdout)
+    res = parse_out(p.stdout)
+    # best effort: which theorem hypotheses each grammar meets (separate executable that imports proof files; when a proof
+    # about the extracted tables no longer checks it does not build, and the statistics are simply absent)
+    if 'ok' not in _pegclass_state:
+        from .common import build_lean
+        try:
+            _pegclass_state['ok'] = build_lean(['pegclass'])[0]
+        except Exception:
+            _pegclass_state['ok'] = False
+    if _pegclass_state['ok']:
+        try:
+            q = subprocess.run([PEGCLASS, casefile], stdout=subprocess.PIPE, stderr=subprocess.DEVNULL, text=True, timeout=600)
+            res.update(parse_out(q.stdout))
+        except Exception:
+            pass
+    return res
 
 
 def run_cases(cases, workdir, nbatch=8, indented=False, seed=1):
